@@ -882,6 +882,46 @@ func (e *Exec) callEffects(call *ast.CallExpr, info *types.Info, subst map[*type
 	if e.prog.isPure(fn) {
 		return
 	}
+	if e.topCon != nil && e.topCon.Dispatch != nil {
+		if sg := fn.Type().(*types.Signature); sg.Recv() != nil {
+			if in, ok := types.Unalias(sg.Recv().Type()).(*types.Named); ok {
+				impls, ok := e.topCon.Dispatch[in.Obj().Name()+"."+fn.Name()]
+				if !ok {
+					if _, hasIface := e.prog.contracts[e.topCon.PkgName+"."+in.Obj().Name()+"."+fn.Name()]; !hasIface {
+						impls, ok = e.topCon.Dispatch[in.Obj().Name()]
+					}
+				}
+				if ok {
+					for _, tn := range impls {
+						tname := strings.TrimPrefix(strings.TrimSpace(tn), "*")
+						for _, fi := range e.prog.funcs {
+							if fi.Obj.Name() != fn.Name() {
+								continue
+							}
+							s2 := fi.Obj.Type().(*types.Signature)
+							if s2.Recv() == nil {
+								continue
+							}
+							r := s2.Recv().Type()
+							if p, ok := r.(*types.Pointer); ok {
+								r = p.Elem()
+							}
+							if nn, ok := types.Unalias(r).(*types.Named); !ok || nn.Obj().Name() != tname {
+								continue
+							}
+							if ct := e.prog.contractFor(fi.Obj); ct != nil && !(ct.Inline && ct.Kind == "func") {
+								e.contractEffects(ct, fi.Obj, s2, ef)
+							} else if !seen[fullName(fi.Obj)] && depth < e.maxInl {
+								seen[fullName(fi.Obj)] = true
+								e.collectEffects(fi.Decl.Body, fi.Pkg.TypesInfo, nil, ef, depth+1, seen)
+							}
+						}
+					}
+					return
+				}
+			}
+		}
+	}
 	if conc := e.devirtTarget(fn, fn.Type().(*types.Signature)); conc != nil {
 		fn = conc
 		name = fullName(fn)
